@@ -184,6 +184,7 @@ type Violation struct {
 	Events []string    `json:"events,omitempty"`
 	Labels []string    `json:"labels,omitempty"`
 	Path   int         `json:"path"`
+	Delays int         `json:"delays"`
 }
 
 type NondetVal struct {
